@@ -1196,6 +1196,42 @@ fn register_pressure(t: &mut T) {
     case!("rflags::read_raw", rflags::read_raw());
 }
 
+/// `ltr` writes memory: it marks the TSS descriptor busy in the GDT. Code around `load_tss` that reads the descriptor before
+/// and after (plain reads, same function) sees the change - the asm block may not be declared read-only.
+/// (the table is reached through a raw pointer: memory behind a `&mut` parameter is, by Rust's aliasing rules, out of
+/// reach for an asm block that was not given the pointer, so forwarding would be legitimate there)
+#[inline(never)]
+fn descriptor_around_load_tss(tbl: *mut u64, sel: u16) -> (u64, u64) {
+    let idx = (sel >> 3) as usize;
+    let before = unsafe { *tbl.add(idx) };
+    unsafe { load_tss(SegmentSelector(sel)) };
+    let after = unsafe { *tbl.add(idx) };
+    (before, after)
+}
+
+fn load_tss_marks_busy(t: &mut T) {
+    let mut tbl: [u64; 8] = [0, 0x00af_9b00_0000_ffff, 0x00cf_9300_0000_ffff, 0, 0, 0, 0, 0];
+    let idx = 3 + t.r.below(3) as usize;
+    let base = t.r.next() & 0xffff_ffff;
+    // available 64-bit TSS descriptor (type 0x9), present, limit 0x67
+    tbl[idx] = 0x0000_8900_0000_0067 | ((base & 0xff_ffff) << 16) | ((base >> 24) << 56);
+    let regs = trapemu::regs();
+    let saved = regs.gdtr;
+    regs.gdtr = (8 * 8 - 1, tbl.as_ptr() as u64);
+    regs.emulate_ltr_busy = true;
+    let sel = (idx as u16) << 3;
+    let ((before, after), evs) = trapemu::trapped(|| descriptor_around_load_tss(tbl.as_mut_ptr(), sel));
+    let regs = trapemu::regs();
+    regs.emulate_ltr_busy = false;
+    regs.gdtr = saved;
+    t.rep.eval();
+    let in_memory = unsafe { core::ptr::read_volatile(&tbl[idx]) };
+    if evs.len() != 1 || evs[0].kind != K::Ltr || in_memory != before | (1 << 41) || after != in_memory {
+        t.bad("load_tss", "descriptor-read-after-it-does-not-show-the-busy-bit-ltr-set", vec![("profile", J::s(crate::util::profile_name())), ("read_before", J::hex(before)), ("read_after", J::hex(after)), ("in_memory", J::hex(in_memory))], &evs);
+    }
+    t.rep.class("load_tss|busy-bit-visible-to-surrounding-code");
+}
+
 fn callers_locals(t: &mut T) {
     let fns: [(&str, usize, fn(u64, u64) -> u64); 11] = [
         ("rflags::write_raw", 1, leaf_wr_1), ("rflags::write_raw", 2, leaf_wr_2), ("rflags::write_raw", 4, leaf_wr_4), ("rflags::write_raw", 9, leaf_wr_9),
@@ -1233,6 +1269,7 @@ pub fn run(a: &Args, rep: &mut Report) {
         }
         if i % 256 == 0 {
             register_pressure(&mut t);
+            load_tss_marks_busy(&mut t);
         }
         if i % 16 == 0 {
             flags_tests(&mut t);
